@@ -31,7 +31,11 @@ CarriesPid == T.out \in {"NSP", "ZP", "AD"} => T.pidok
 \* once gone, every later query on the object raises NoSuchProcess
 GoneForGood == T.phaseEnd = "gone" => \A i \in DOMAIN T.follow : T.follow[i] = "NSP"
 
-Clauses == <<NoBareError, WellFormed, NSPOnlyIfGone, ZPOnlyIfZombie, ADOnlyIfDenied, CarriesPid, GoneForGood>>
+\* ... including the first one: a query that BEGINS after the process is gone has no earlier moment to
+\* answer for (T.before: the process vanished before the call; T.asks: the call is a query about it)
+GoneBefore == (T.before /\ T.asks) => T.out = "NSP"
+
+Clauses == <<NoBareError, WellFormed, NSPOnlyIfGone, ZPOnlyIfZombie, ADOnlyIfDenied, CarriesPid, GoneForGood, GoneBefore>>
 Accepted == \/ \A i \in DOMAIN Clauses : Clauses[i]
             \/ PrintT(<<"REJECTED", idx, Clauses>>)     \* report and go on: every record is judged
 =============================================================================
